@@ -223,9 +223,6 @@ def run(ctx):
                    "harness cmd/vh upgrade (rig, fault proxy, raw peer)", "net/http, nhooyr websocket, TCP: reliable FIFO per connection"]
     ctx.assumptions = ["links are reliable FIFO per transport until cut", "pollQueue wake-up is not lost and the poll time-out does "
                        "not fire during the window (C19)", "the timer-vs-UPGRADE boundary race is covered in the model only"]
-    # the per-label case analyses of Eio/UpgradeInv[A-H]*.v need minutes of CPU each (built in parallel, cached)
-    import os
-    os.environ.setdefault("COQ_FILE_TIMEOUT", "3000")
     ctx.proofs(modules=["Eio/UpgradeCheck"])
     vh = ctx.go_build()
     if vh is None:
